@@ -29,6 +29,9 @@ type Circuit struct {
 
 	// Tracks if the circuit has been shut open or closed
 	isOpen faststats.AtomicBoolean
+	// transitionMu serializes the open<->closed transitions (notify collectors, then flip isOpen) so that racing
+	// callers make, and report, each transition exactly once.  It is never taken on the path of a normal call.
+	transitionMu sync.Mutex
 
 	// Tracks how many commands are currently running
 	concurrentCommands faststats.AtomicInt64
@@ -195,6 +198,12 @@ func (c *Circuit) openCircuit(ctx context.Context, now time.Time) {
 	}
 	if c.IsOpen() {
 		// Don't bother opening a circuit that is already open
+		return
+	}
+	c.transitionMu.Lock()
+	defer c.transitionMu.Unlock()
+	if c.isOpen.Get() {
+		// Someone else made this transition while we were waiting
 		return
 	}
 	c.CircuitMetricsCollector.Opened(ctx, now)
@@ -451,6 +460,12 @@ func (c *Circuit) close(ctx context.Context, now time.Time, forceClosed bool) {
 		return
 	}
 	if forceClosed || c.OpenToClose.ShouldClose(ctx, now) {
+		c.transitionMu.Lock()
+		defer c.transitionMu.Unlock()
+		if !c.isOpen.Get() {
+			// Someone else made this transition while we were waiting
+			return
+		}
 		c.CircuitMetricsCollector.Closed(ctx, now)
 		c.isOpen.Set(false)
 	}
